@@ -95,8 +95,7 @@ def vh(args, profile='debug', timeout=600, input=None, env=None):
 # ----------------------------------------------------------------------------- Coq
 
 def coq_make(targets, timeout=1500, force=()):
-    if not os.path.exists(os.path.join(COQ, 'Makefile')):
-        sh('coq_makefile -f _CoqProject -o Makefile', cwd=COQ)
+    sh('./mkproject.sh', cwd=COQ)
     for f in force:
         for ext in ('.vo', '.vok', '.vos', '.glob'):
             try:
